@@ -1128,3 +1128,79 @@ func c06r7(rc *core.RC) {
 		rc.Unknown("decoder/indexed-buffer-writes", token.NoPos, "no indexed write into a made buffer found (unquoteBytes expected)")
 	}
 }
+
+// ---- C06.R8 the structure skippers count nesting depth symmetrically ----
+
+// skipObject/skipArray (buffer and stream) walk a skipped value by counting brackets. In each of
+// them the depth counter must go up in the clause of an opening bracket and down in the clause of
+// the matching closing bracket: an increment without its decrement turns the nesting depth into a
+// count of siblings, and a wide but shallow skipped value fails with "exceeded max depth".
+func c06r8(rc *core.RC) {
+	p := rc.P
+	n := 0
+	for _, name := range []string{"skipObject", "skipArray", "Stream.skipObject", "Stream.skipArray"} {
+		fd := p.Func("decoder", name)
+		fn := "decoder." + name
+		if fd == nil {
+			rc.Unknown(fn, token.NoPos, "not found")
+			continue
+		}
+		info := p.Info(fd)
+		rc.Touch(p.FuncName(fd))
+		// the depth parameter
+		var depth types.Object
+		for _, f := range fd.Type.Params.List {
+			for _, nm := range f.Names {
+				if nm.Name == "depth" {
+					depth = info.Defs[nm]
+				}
+			}
+		}
+		if depth == nil {
+			rc.Unknown(fn+"/depth", fd.Pos(), "no depth parameter")
+			continue
+		}
+		var bs *core.ByteSwitch
+		ast.Inspect(fd.Body, func(m ast.Node) bool {
+			if sw, ok := m.(*ast.SwitchStmt); ok && bs == nil {
+				if b, _ := core.EvalByteSwitch(info, sw); b != nil && b.HasSingleton('{') && b.HasSingleton('[') {
+					bs = b
+				}
+			}
+			return true
+		})
+		if bs == nil {
+			rc.Unknown(fn+"/bracket-dispatch", fd.Pos(), "bracket dispatch not found")
+			continue
+		}
+		delta := func(cc *ast.CaseClause) (inc, dec int) {
+			if cc == nil {
+				return
+			}
+			for _, st := range cc.Body {
+				ast.Inspect(st, func(k ast.Node) bool {
+					if x, ok := k.(*ast.IncDecStmt); ok && core.ObjOf(info, x.X) == depth {
+						if x.Tok == token.INC {
+							inc++
+						} else {
+							dec++
+						}
+					}
+					return true
+				})
+			}
+			return
+		}
+		for _, pair := range [][2]byte{{'{', '}'}, {'[', ']'}} {
+			n++
+			oi, od := delta(bs.ClauseOf(pair[0]))
+			ci, cd := delta(bs.ClauseOf(pair[1]))
+			key := fmt.Sprintf("%s/depth %c%c", fn, pair[0], pair[1])
+			ok := oi == 1 && od == 0 && ci == 0 && cd == 1
+			rc.Check(ok, key, fd.Pos(), "the clause of %q raises the depth once (+%d −%d) and the clause of %q lowers it once (+%d −%d): without the matching decrement the depth counts siblings, and a wide shallow value that is skipped fails with a depth error", pair[0], oi, od, pair[1], ci, cd)
+		}
+	}
+	if n < 8 {
+		rc.Unknown("decoder/skippers", token.NoPos, "found %d bracket pairs in the four structure skippers", n)
+	}
+}
